@@ -192,6 +192,8 @@ def run(sc, garbage):
             sigs.append(_sig(ures))
         events.append(e)
         events.append({"ev": "Owned", "mutated": ev.mutated()})
+        if outcome != "ok" or (res is not None and any(isinstance(r, FunctionResults) and r.functions is None for r in res)):
+            break           # too few realizations: an optimization stops here, later calls would build on a failed evaluation
     # delivered results are immutable snapshots: scribble over everything the evaluator still holds, then re-hash
     for _, arr, _, _, _ in ev.owned:
         try:
